@@ -316,8 +316,13 @@ def matrix_cases(rng, tier):
     nv = len(VARIANTS)
     combos = REQ_DFLT_QUICK if tier == "quick" else REQ_DFLT_FULL
     out = []
+    twin = {i for i, v in enumerate(VARIANTS) if v[0] in ("enum-lower", "enum-UPPER", "enum-Mixed", "enum-dash", "enum-space", "enum-dig1", "enum-dig2", "enum-dig3",
+                                                           "list-enum-lower", "list-enum-UPPER")}
+    near = twin | {i for i, v in enumerate(VARIANTS) if v[0].split("-")[0] in ("enum", "any", "str", "int") or v[0].startswith("list-enum")}
     for i in range(nv):
         for j in range(nv):
+            if tier == "quick" and ((i in twin and j not in near) or (j in twin and i not in near)):
+                continue      # quick: the member-name twins meet only each other and the kinds an enum can merge with (thorough: everything)
             for (r1, r2, d1, d2) in combos:
                 out.append({"v1": i, "v2": j, "r1": r1, "r2": r2, "d1": d1, "d2": d2,
                             "ds1": "d1" if (i + j + r1) % 3 == 0 else None, "ds2": "d2" if (i + r2) % 2 else None,
@@ -615,6 +620,33 @@ FOCI = [["int", "number", "any"], ["str", "date", "enum_s", "any"], ["str", "dat
         ["int", "number", "enum_i"], ["str", "uuid"], ["bool", "int"]]
 
 
+def nm(spec, ident):
+    """document name of a model of the spec (the spec itself is written over the neutral ids P<i> / C<i>)"""
+    return spec.get("names", {}).get(ident, ident)
+
+
+def suffix_names(spec, rng):
+    """Document names such that a composed schema's name is a SUFFIX of the name of a parent it extends (Pet = allOf[NewPet, ...],
+    Item -> BaseItem -> AbstractBaseItem): whether a $ref designates the schema itself must be decided on the whole last path segment."""
+    children = {}
+    for c, v in spec["composed"].items():
+        for k, m in v["members"]:
+            if k == "ref":
+                children.setdefault(m, []).append(c)
+    bases = ["Item", "Pet", "Thing", "Node", "Unit", "Part", "Form"]
+    prefixes = ["New", "Base", "Abstract", "Old", "Core", "Super"]
+    names = {}
+    for ident in list(spec["composed"])[::-1] + list(spec["leaves"]):      # youngest first
+        kids = [k for k in children.get(ident, []) if k in names]
+        if not kids:
+            names[ident] = bases.pop(0)
+            continue
+        stem = names[rng.choice(kids)]
+        cands = [p + stem for p in rng.sample(prefixes, len(prefixes))] + [p + q + stem for p in prefixes for q in prefixes]
+        names[ident] = next(c for c in cands if c not in names.values())
+    return names
+
+
 def rand_doc_spec(rng, tier):
     """{'leaves': {name: obj}, 'composed': {name: {'members': [('ref', name) | ('inline', obj)], 'own': obj | None}}, 'order': [names]}"""
     names = DOC_NAMES[: rng.randint(2, 4)]
@@ -634,6 +666,10 @@ def rand_doc_spec(rng, tier):
         avail.append(f"C{i}")          # later composed models may use earlier ones: chains
     order = list(spec["leaves"]) + list(spec["composed"])
     rng.shuffle(order)                 # parents declared after children
+    if rng.random() < 0.4:
+        spec["names"] = suffix_names(spec, rng)
+        if rng.random() < 0.6:           # youngest first: every child precedes every parent it extends
+            order = list(spec["composed"])[::-1] + list(spec["leaves"])[::-1]
     spec["order"] = order
     return spec
 
@@ -665,6 +701,18 @@ def fixed_specs():
     """one deterministic witness per known finding (so each reproduces on every run) + a late-parent chain"""
     P = lambda **props: {"props": props, "required": []}
     return [
+        # children declared BEFORE the parents they extend, names suffix-related (Pet / NewPet; Item -> BaseItem -> AbstractBaseItem), and a control
+        {"leaves": {"P0": {"props": {"pa": {"k": "str"}, "pb": {"k": "str"}}, "required": ["pa"]}},
+         "composed": {"C0": {"members": [("ref", "P0"), ("inline", {"props": {"pc": {"k": "int"}}, "required": ["pc"]})], "own": None}},
+         "order": ["C0", "P0"], "names": {"C0": "Pet", "P0": "NewPet"}},
+        {"leaves": {"P0": {"props": {"pa": {"k": "str"}}, "required": ["pa"]}},
+         "composed": {"C0": {"members": [("ref", "P0"), ("inline", {"props": {"pb": {"k": "int"}}, "required": []})], "own": None},
+                      "C1": {"members": [("ref", "C0"), ("inline", {"props": {"pc": {"k": "date"}, "pa": {"k": "enum_s", "vals": ["a", "b"]}}, "required": ["pc"]})], "own": None}},
+         "order": ["C1", "C0", "P0"], "names": {"C1": "Item", "C0": "BaseItem", "P0": "AbstractBaseItem"}},
+        {"leaves": {"P0": {"props": {"pa": {"k": "str"}}, "required": []}, "P1": {"props": {"pb": {"k": "int"}}, "required": ["pb"]}},
+         "composed": {"C0": {"members": [("ref", "P0"), ("ref", "P1")], "own": {"props": {"pc": {"k": "bool"}}, "required": []}},
+                      "C1": {"members": [("ref", "P0"), ("inline", {"props": {"pq": {"k": "str"}}, "required": ["pq"]})], "own": None}},
+         "order": ["C0", "C1", "P1", "P0"], "names": {"C0": "Pet", "P0": "NewPet", "P1": "OldPet", "C1": "Dog"}},
         # own properties + an inline member that carries only `required`; inline properties + a required-only sibling
         {"leaves": {}, "composed": {"C0": {"members": [("inline", {"props": {}, "required": ["pa"]})], "own": {"props": {"pa": {"k": "int"}, "pb": {"k": "str"}}, "required": []}},
                                     "C1": {"members": [("inline", {"props": {"pc": {"k": "str"}, "pq": {"k": "str"}}, "required": []}), ("inline", {"props": {}, "required": ["pc"]})], "own": None}},
@@ -706,13 +754,14 @@ def obj_schema(o):
 
 
 def doc_of(spec, reverse=False):
+    """reverse: members of every allOf AND the declaration order of the schemas are reversed"""
     comps = dict(LEAF_MODELS)
-    for name in spec["order"]:
+    for name in (spec["order"][::-1] if reverse else spec["order"]):
         if name in spec["leaves"]:
-            comps[name] = obj_schema(spec["leaves"][name])
+            comps[nm(spec, name)] = obj_schema(spec["leaves"][name])
         else:
             c = spec["composed"][name]
-            ms = [REF(m[1]) if m[0] == "ref" else obj_schema(m[1]) for m in c["members"]]
+            ms = [REF(nm(spec, m[1])) if m[0] == "ref" else obj_schema(m[1]) for m in c["members"]]
             if reverse:
                 ms = ms[::-1]
             s = {"allOf": ms}
@@ -722,7 +771,7 @@ def doc_of(spec, reverse=False):
                     s["properties"] = o["properties"]
                 if "required" in o:
                     s["required"] = o["required"]
-            comps[name] = s
+            comps[nm(spec, name)] = s
     return impl.base_doc(components={"schemas": comps})
 
 
@@ -764,7 +813,7 @@ def flatten(spec, name, memo=None):
     return r
 
 
-def class_table(files):
+def class_table(files, modfiles=None):
     """{class name: {attr: (annotation text, has default)}} from the AST of the generated models (no execution)."""
     import ast
     out = {}
@@ -783,6 +832,8 @@ def class_table(files):
                     if isinstance(st, ast.AnnAssign) and isinstance(st.target, ast.Name) and st.target.id != "additional_properties":
                         fields[st.target.id] = (ast.unparse(st.annotation), st.value is not None)
                 out[node.name] = fields
+                if modfiles is not None:
+                    modfiles[node.name] = path
     return out
 
 
@@ -843,7 +894,10 @@ def stage_c_worker(spec):
     root = Path(tempfile.mkdtemp(prefix="opc_c15c_"))
     obs = {"spec": spec}
     try:
-        tabs, diags, excs = [], [], []
+        from openapi_python_client.utils import ClassName
+        tabs, diags, excs, modfiles = [], [], [], {}
+        cls_of = {i: str(ClassName(nm(spec, i), "")) for i in list(spec["leaves"]) + list(spec["composed"])}
+        inv = {c: i for i, c in cls_of.items()}
         docs = [doc_of(spec, False), doc_of(spec, True)]
         bare = copy.deepcopy(spec)
         bare["composed"] = {}
@@ -853,8 +907,11 @@ def stage_c_worker(spec):
             g = impl.Gen(doc, root=root, outname=f"pk{i}")
             excs.append(repr(g.exc) if g.exc is not None else None)
             diags.append([(h or "") + " " + (d or "") for _, h, d in g.diag()])
-            tabs.append(class_table(g.files()))
-        obs.update(tables=tabs, diags=diags, excs=excs)
+            mf = {}
+            t = class_table(g.files(), mf)
+            tabs.append({inv.get(k, k): v for k, v in t.items()})
+            modfiles.update({inv.get(k, k): p for k, p in mf.items()})
+        obs.update(tables=tabs, diags=diags, excs=excs, modfiles=modfiles)
         # round trips for the composed classes of order 0 and 1
         memo = {}
         jobs = []
@@ -881,7 +938,7 @@ def stage_c_worker(spec):
             missing = {n: {k: v for k, v in inst_full.items() if k != n} for n in f["required_spec"]}
             for i in (0, 1):
                 if cname in tabs[i]:
-                    jobs.append({"id": f"{cname}/{i}", "pkg": f"pk{i}", "cls": cname, "instances": [inst_full, inst_min] if roundtrip else [], "missing": missing if roundtrip else {},
+                    jobs.append({"id": f"{cname}/{i}", "pkg": f"pk{i}", "cls": cls_of[cname], "instances": [inst_full, inst_min] if roundtrip else [], "missing": missing if roundtrip else {},
                                  "reject": rejects})
         if jobs:
             script = root / "runner.py"
@@ -1024,7 +1081,7 @@ def judge_doc(run, obs, guard_queries):
                 continue
             if not refs_ok:
                 continue   # a member itself is order-dependent: reported at that member
-            run.violation("oracle", {"replay_input": case, "note": "one member order yields a class, the reverse order a diagnostic", "class": cname, "diags": obs["diags"][:2]})
+            run.violation("oracle", {"replay_input": case, "note": "one member / declaration order yields a class, the reverse order a diagnostic", "names": spec.get("names"), "class": cname, "diags": obs["diags"][:2]})
             continue
         if not ex0:
             if not (obs["diags"][0] and obs["diags"][1]):
@@ -1079,7 +1136,7 @@ def judge_doc(run, obs, guard_queries):
                 if "NameError" in r["fatal"] and stale_enum_default(spec) and run.known_finding(
                         "merge_enum_default_stale_class", "models package fails to import: " + r["fatal"].strip().split("\n")[-3].strip() + " -> " + r["fatal"].strip().split("\n")[-1][:80]):
                     continue
-                if "NameError" in r["fatal"] and any(f"/models/{p.lower()}.py" in r["fatal"] for p in mutated_leaves | {k for k, _ in victims}) and run.known_finding(
+                if "NameError" in r["fatal"] and any("/" + obs.get("modfiles", {}).get(p, "?") in r["fatal"] for p in mutated_leaves | {k for k, _ in victims}) and run.known_finding(
                         "allof_parent_list_mutated", "member class mutated after its imports were computed: " + r["fatal"].strip().split("\n")[-1][:120]):
                     continue
                 run.violation("oracle", {"replay_input": case, "note": "composed class cannot be imported", "class": cname, "error": r["fatal"][-600:]})
